@@ -492,6 +492,12 @@ fn read_all_sync<R: Read>(r: &mut R, bufs: &[usize]) -> std::io::Result<Vec<u8>>
         let mut buf = vec![0u8; sz];
         let n = r.read(&mut buf)?;
         if n == 0 {
+            // a consumer may well poll once more at end of file before it checks
+            let again = r.read(&mut buf)?;
+            if again != 0 {
+                out.extend_from_slice(&buf[..again]);
+                continue;
+            }
             return Ok(out);
         }
         out.extend_from_slice(&buf[..n]);
@@ -515,6 +521,11 @@ async fn read_all_async<R: AsyncReadExt + Unpin>(r: &mut R, bufs: &[usize]) -> s
         let mut buf = vec![0u8; sz];
         let n = r.read(&mut buf).await?;
         if n == 0 {
+            let again = r.read(&mut buf).await?;
+            if again != 0 {
+                out.extend_from_slice(&buf[..again]);
+                continue;
+            }
             return Ok(out);
         }
         out.extend_from_slice(&buf[..n]);
